@@ -154,6 +154,8 @@ def gen(seed: int, tier: str, idx=None):
         return gen_enumerated(seed, tier, ENUM_TOTAL + idx // 3 if tier == "thorough" else idx // 3)
     rng0 = substream(seed, "swarm")
     cfg = {"property": PROPERTY, "aspects": ["grid", "names"], "profile": "grid"}
+    # every 2nd/3rd operation (or none) reaches its table through sheets[name].tables[name] instead of by index
+    cfg["by_name_every"] = rng0.choice([0, 2, 3])
     kinds = ["s", "b", "i", "f", "dt", "td"]
     mix = {k: rng0.choice([0, 1, 2, 4]) for k in kinds}
     if not any(mix.values()):
@@ -271,9 +273,26 @@ def emit_one(g: Gen, kind: str, fault_arm: bool) -> None:
             o["defaults"] = True
         g.emit(o)
     elif kind == "rename_table":
-        g.emit({"op": "rename_table", "d": d, "s": s, "t": t, "name": g.name()})
+        # often a name swap: A -> tmp, B -> A (the old name comes back on another item)
+        sm = ms.docs[d % len(ms.docs)].model.sheets[s]
+        if len(sm.tables) >= 2 and rng.random() < 0.5:
+            t2 = (t + 1) % len(sm.tables)
+            old_name = sm.tables[t].name
+            g.emit({"op": "rename_table", "d": d, "s": s, "t": t, "name": "tmp " + str(rng.randrange(5))})
+            g.emit({"op": "rename_table", "d": d, "s": s, "t": t2, "name": old_name})
+            g.emit({"op": "write", "d": d, "s": s, "t": t2, "r": 0, "c": 0, "v": V.enc(g.value())})
+        else:
+            g.emit({"op": "rename_table", "d": d, "s": s, "t": t, "name": g.name()})
     elif kind == "rename_sheet":
-        g.emit({"op": "rename_sheet", "d": d, "s": s, "name": g.name()})
+        m = ms.docs[d % len(ms.docs)].model
+        if len(m.sheets) >= 2 and rng.random() < 0.5:
+            s2 = (s + 1) % len(m.sheets)
+            old_name = m.sheets[s].name
+            g.emit({"op": "rename_sheet", "d": d, "s": s, "name": "tmp " + str(rng.randrange(5))})
+            g.emit({"op": "rename_sheet", "d": d, "s": s2, "name": old_name})
+            g.emit({"op": "write", "d": d, "s": s2, "t": 0, "r": 0, "c": 0, "v": V.enc(g.value())})
+        else:
+            g.emit({"op": "rename_sheet", "d": d, "s": s, "name": g.name()})
     elif kind == "save":
         o = {"op": "save", "d": d, "slot": rng.choice(FILE_SLOTS + FILE_SLOTS + PKG_SLOTS)}
         if fault_arm and rng.random() < 0.45:
